@@ -184,15 +184,15 @@ Definition in_model (ts : list tok) : bool := forallb tok_in_model ts.
 (* [^/]* then f *)
 Fixpoint star_go (f : str -> bool) (s : str) : bool :=
   f s ||| match s with x :: r => negb (Ascii.eqb x slash) &&& star_go f r | [] => false end.
-(* .* then "/" then f   ("." does not match a newline) *)
+(* .* then "/" then f   (the expressions are compiled with the s flag: "." matches every byte) *)
 Fixpoint dss_go (f : str -> bool) (s : str) : bool :=
   match s with
   | [] => false
-  | x :: r => (Ascii.eqb x slash &&& f r) ||| (negb (Ascii.eqb x nl) &&& dss_go f r)
+  | x :: r => (Ascii.eqb x slash &&& f r) ||| dss_go f r
   end.
 (* .* then f *)
 Fixpoint dse_go (f : str -> bool) (s : str) : bool :=
-  f s ||| match s with x :: r => negb (Ascii.eqb x nl) &&& dse_go f r | [] => false end.
+  f s ||| match s with x :: r => dse_go f r | [] => false end.
 
 Fixpoint tmatch (ts : list tok) : str -> bool :=
   match ts with
